@@ -93,17 +93,6 @@ def _base_queries():
     return qs
 
 
-def _base_queries():
-    qs = _base_queries()
-    if _t0 is not None:
-        qs = qs + _t0.queries()
-    return qs
-
-if _t0 is not None:
-    META["assumptions"] = list(META.get("assumptions", [])) + list(getattr(_t0, "ASSUMPTIONS", []))
-    META["mutants_tried"] = list(META.get("mutants_tried", [])) + list(getattr(_t0, "MUTANTS", []))
-
-
 def queries():
     qs = _base_queries()
     if _t0 is not None:
